@@ -92,6 +92,16 @@ def _run(ctx, w):
     ctx.floor("X9", 100, "row primitive evaluations")
     prims.buffer_edit_primitives(ctx, w, S, R, "X10", spec=True)
     decaln_extent(ctx, w, S, R)
+    ctx.rule("X12", "ED / EL (every selector), ECH / ICH / DCH (every count) and DECALN evaluated as whole handlers on a 4x3 symbolic terminal for every cursor position incl. wrap-pending: exactly the documented extent changes, "
+                    "blanks carry the pen, the cursor stays (DCH first leaves the wrap-pending column), nothing is skipped for special positions")
+    try:
+        from rules import hinterp
+        okh, infoh = hinterp.edit_handlers_semantics(w, S, R)
+        ctx.check(okh, "X12", "handlers", str(infoh), loc=w.fn_loc(w.handler("El")[0]) if w.handler("El") else None, sample={"cases": infoh})
+        if okh:
+            ctx.rule_counts["X12"] = infoh
+    except Exception as ex:
+        ctx.violation("X12", "handlers", "cannot evaluate the editing handlers: %r" % (ex,))
     ctx.floor("X10", 1000, "buffer edit primitive evaluations")
 
 
